@@ -4,11 +4,17 @@
 #include <unordered_set>
 LibcLog g_libc;
 static std::unordered_set<void *> &live() { static std::unordered_set<void *> s; return s; }
+static bool inject() {
+    g_libc.n_requests++;
+    bool f = (g_libc.fail_at && g_libc.n_requests == g_libc.fail_at) || (g_libc.fail_at2 && g_libc.n_requests == g_libc.fail_at2) || (g_libc.fail_from && g_libc.n_requests >= g_libc.fail_from);
+    if (f) g_libc.n_failed++;
+    return f;
+}
 extern "C" {
-void *vf_lib_malloc(size_t n) { g_libc.n_malloc++; void *p = malloc(n); if (p) { live().insert(p); g_libc.balance++; } return p; }
-void *vf_lib_calloc(size_t a, size_t b) { g_libc.n_calloc++; void *p = calloc(a, b); if (p) { live().insert(p); g_libc.balance++; } return p; }
+void *vf_lib_malloc(size_t n) { g_libc.n_malloc++; if (inject()) return 0; void *p = malloc(n); if (p) { live().insert(p); g_libc.balance++; } return p; }
+void *vf_lib_calloc(size_t a, size_t b) { g_libc.n_calloc++; if (inject()) return 0; void *p = calloc(a, b); if (p) { live().insert(p); g_libc.balance++; } return p; }
 void *vf_lib_realloc(void *o, size_t n) {
-    g_libc.n_realloc++; if (o) { live().erase(o); g_libc.balance--; }
+    g_libc.n_realloc++; if (n && inject()) return 0; if (o) { live().erase(o); g_libc.balance--; }
     void *p = realloc(o, n); if (p) { live().insert(p); g_libc.balance++; } else if (o && n) { live().insert(o); g_libc.balance++; } return p;
 }
 void *vf_lib_reallocarray(void *o, size_t a, size_t b) {
@@ -16,7 +22,7 @@ void *vf_lib_reallocarray(void *o, size_t a, size_t b) {
 }
 void vf_lib_free(void *p) {
     g_libc.n_free++; if (!p) return; g_libc.n_free_nonnull++;
-    if (!live().count(p)) { g_libc.balance -= 1000000; return; }   // freeing something libc did not hand to the library: flagged, not executed
+    if (!live().count(p)) { g_libc.bad_free++; return; }   // freeing something libc did not hand to the library: flagged, not executed
     live().erase(p); g_libc.balance--; free(p);
 }
 }
